@@ -2628,6 +2628,14 @@ evdns_server_request_respond(struct evdns_server_request *req_, int err)
 		r = 1;
 		goto done;
 	}
+	if (port->refcnt == 1) {
+		/* This request holds the last reference to a port that has
+		 * been closed: server_request_free() is about to free the
+		 * port together with the lock we are holding. */
+		EVDNS_UNLOCK(port);
+		server_request_free(req);
+		return 0;
+	}
 	if (server_request_free(req)) {
 		r = 0;
 		goto done;
